@@ -76,7 +76,7 @@ pub mod rustix_fs {
     { unimplemented!() }
     #[verifier::external_body]
     pub fn unlinkat<Fd: AsFd, P: AsRefPath>(dirfd: Fd, path: P, flags: AtFlags) -> (r: Result<(), Errno>)
-        requires valid_dirfd(dirfd.fd_id()), flags.bits == requested_passthrough_flags(),  // [C14.rustix_unlinkat.flags_unchanged]
+        requires valid_dirfd(dirfd.fd_id()), flags.bits == requested_passthrough_flags(),  // [C13+C14.rustix_unlinkat.flags_unchanged]
     { unimplemented!() }
     #[verifier::external_body]
     pub fn linkat<Fd1: AsFd, P1: AsRefPath, Fd2: AsFd, P2: AsRefPath>(old_dirfd: Fd1, old_path: P1, new_dirfd: Fd2, new_path: P2, flags: AtFlags) -> (r: Result<(), Errno>)
@@ -161,6 +161,26 @@ impl OwnedFd {
         ensures final(ledger)@ == old(ledger)@.drop_last(),
     { unimplemented!() }
 }
+// ---- errno (thread-local) around the raw openat2 call (variant __errno): `cell` is Some(e) while errno still holds the error e
+// of the failed call; any other libc call in between may overwrite it
+pub uninterp spec fn openat2_failure() -> int;
+#[verifier::external_body]
+pub fn sys_openat2_errno(cell: &mut Ghost<Option<int>>, dirfd: BorrowedFd<'_>, path: &CStringK, how: &syscalls::OpenHow, size: usize) -> (r: i32)
+    requires valid_dirfd(dirfd.id@),
+    ensures r >= 0 ==> fresh_kernel_fd(r as int), r < 0 ==> final(cell)@ == Some(openat2_failure()),
+        i32::MIN <= openat2_failure() <= i32::MAX,
+{ unimplemented!() }
+impl IOError {
+    #[verifier::external_body]
+    pub fn last_os_error_errno(cell: &mut Ghost<Option<int>>) -> (r: IOError)
+        ensures r.raw() is Some, final(cell)@ == old(cell)@, old(cell)@ matches Some(e) ==> r.raw() == Some(e as i32),
+    { unimplemented!() }
+}
+/// `FrozenFd::from(fd)` reads the descriptor's path from /proc/thread-self/fd/<n> for the error text: when that fails errno is overwritten
+#[verifier::external_body]
+pub fn frozen_fd_from_errno(fd: BorrowedFd<'_>, cell: &mut Ghost<Option<int>>) -> (r: FrozenFd)
+    ensures final(cell)@ == None::<int>,
+{ unimplemented!() }
 pub uninterp spec fn last_openat2(fd: int, dirfd: int, path: Seq<u8>, how: syscalls::OpenHow) -> bool;
 /// A4: what the kernel guarantees about the object openat2(dirfd, path, how) returned
 pub open spec fn a4_facts(id: int, d: int, p: Seq<u8>, how: syscalls::OpenHow) -> bool {
@@ -204,11 +224,11 @@ pub mod rustix_mount {
     #[verifier::external_body]
     pub fn fsmount<Fd: AsFd>(sfd: Fd, flags: FsMountFlags, attrs: MountAttrFlags) -> (r: Result<OwnedFd, Errno>)
         requires valid_dirfd(sfd.fd_id()), flags.bits & 1u32 == 1u32,      // [C05+C11.rustix_fsmount.cloexec]
-        ensures r matches Ok(fd) ==> cloexec(fd.id()),
+        ensures r matches Ok(fd) ==> cloexec(fd.id()), r matches Ok(fd) ==> private_mount(fd.id()) && !derived_from_host_mount(fd.id()),
     { unimplemented!() }
     #[verifier::external_body]
     pub fn open_tree<Fd: AsFd, P: AsRefPath>(dirfd: Fd, path: P, flags: OpenTreeFlags) -> (r: Result<OwnedFd, Errno>)
         requires valid_dirfd(dirfd.fd_id()), flags.bits & 0o2000000u32 == 0o2000000u32,      // [C05+C11.rustix_open_tree.cloexec]
-        ensures r matches Ok(fd) ==> cloexec(fd.id()),
+        ensures r matches Ok(fd) ==> cloexec(fd.id()), r matches Ok(fd) ==> (flags.bits & 1u32 == 1u32 ==> private_mount(fd.id())),   // OPEN_TREE_CLONE
     { unimplemented!() }
 }
